@@ -62,7 +62,7 @@ def cases(tier, seed):
     for reg in SREG:
         for size in range(0, 6):
             for sd in range(0, 6):
-                for extra in (None, 12.0, [12.0, 1986.0]):
+                for extra in (None, 12.0, [12.0, 1986.0], 0.0):
                     yield dict(kind="scatter", region=reg, size=size, seed=sd, extra=extra)
     for reg in regions[::2] + SREG[:3]:
         for a in range(1, 5):
